@@ -386,6 +386,7 @@ def run(ctx):
             cfg = c13.gen_cfg(ctx.rng, thorough)
             cfg.pop("grid", None)          # C13's extra families (non-nested grids, recalculate_frequently) are not part of
             cfg.pop("recalc", None)        # the resume protocol
+            cfg.pop("eval_points", None)
         if cfg["ref"] == "partial_zero":
             cfg["ref"] = "exact"
         # every leg (and the single run it is compared with) ends with evaluate_final_combi(): whatever that recomputation
